@@ -244,6 +244,13 @@ impl TryFrom<Pair<'_, Rule>> for Variable {
                 }
                 .into())
             }
+            Rule::tuple_from_str => {
+                let elements = pair
+                    .into_inner()
+                    .map(Self::try_from)
+                    .collect::<Result<Arc<[Variable]>, Error>>()?;
+                Ok(Variable::Tuple(elements))
+            }
             Rule::array_repeat_from_str => {
                 let mut inner = pair.into_inner();
                 let value = Variable::try_from(inner.next().unwrap())?;
